@@ -260,16 +260,19 @@ def tr_resolve_name(ev: ast.Module) -> str:
     return "\n".join(out) + "\n"
 
 
+def tr_parent_iter(ev: ast.Module) -> str:
+    """`parent_iter` is a generator (outside the interpreted subset): this container first, then the parents"""
+    cls = find_class(ev, "NameContainer")
+    fn = find_func(cls.body, "parent_iter")
+    b = [ast.unparse(s) for s in body_of(fn)]
+    ok = b in (["yield self", "if self.parent is not None:\n    yield from self.parent.parent_iter()"],
+               ["yield self", "if self.parent is None:\n    return", "yield from self.parent.parent_iter()"])
+    return f"def parentIterSelfFirst : Bool := {lean_bool(ok)}\n"
+
+
 def tr_activation(ev: ast.Module) -> str:
     act = find_class(ev, "Activation")
     out = []
-    rv = ast.unparse(find_func(act.body, "resolve_variable"))
-    out.append(f"def resolveVariableUsesValue : Bool := {lean_bool('referent = self.identifiers.resolve_name(self.package, name)' in rv and 'referent.value)' in rv and 'except KeyError:' in rv and 'return self.functions[name]' in rv)}")
-    ga = ast.unparse(find_func(act.body, "__getattr__"))
-    ok = ("referent = self.identifiers.resolve_name(self.package, name)" in ga and "if referent._value_set:" in ga
-          and "referent.value)" in ga and "if referent.container:\n" in ga and "return referent.container" in ga
-          and "elif referent.annotation:" in ga)
-    out.append(f"def getattrAgreesWithValue : Bool := {lean_bool(ok)}")
     na = ast.unparse(find_func(act.body, "nested_activation"))
     out.append(f"def nestedActivationChains : Bool := {lean_bool('based_on=self' in na and 'vars=vars' in na and 'package=self.package' in na)}")
     init = ast.unparse(find_func(act.body, "__init__"))
@@ -294,9 +297,6 @@ def tr_activation(ev: ast.Module) -> str:
     ok = ("elif isinstance(member, NameContainer):" in md and "if property_name in member:" in md
           and "member[property_name].value)" in md)
     out.append(f"def memberDotOnNameContainer : Bool := {lean_bool(ok)}")
-    nc = find_class(ev, "NameContainer")
-    g = ast.unparse(find_func(nc.body, "get"))
-    out.append(f"def nameContainerGetResolves : Bool := {lean_bool('return self.resolve_name(None, name).value' in g)}")
     tp = ast.unparse(find_func(find_class(ev, "Phase1Transpiler").body, "ident"))
     out.append(f"def transpiledIdentIsActivationAttr : Bool := {lean_bool('activation.${ident}' in tp)}")
     tmd = ast.unparse(find_func(find_class(ev, "Phase1Transpiler").body, "member_dot"))
@@ -309,10 +309,10 @@ def gen_names() -> str:
     ev = parse("src/celpy/evaluation.py")
     out = [HEADER.format(src="src/celpy/evaluation.py (Referent, NameContainer, Activation, Evaluator.sub_evaluator/set_activation/member_dot, macro_*)"),
            "namespace Cel.Gen.Names\n"]
-    out.append(tr_referent_value(ev))
+    # Referent.value, find_name, dict_find_name, resolve_name, get, resolve_variable, __getattr__ are no longer
+    # recognised by shape: gen_c12_py dumps their abstract syntax (Gen/NamesPy.lean) and the bridge runs it.
     out.append(tr_load_values(ev))
-    out.append(tr_find_name(ev))
-    out.append(tr_resolve_name(ev))
+    out.append(tr_parent_iter(ev))
     out.append(tr_activation(ev))
     out.append("end Cel.Gen.Names\n")
     return "\n".join(out)
